@@ -3,6 +3,7 @@ is recognisable; load_module and load_module_from_file_object are both exercised
 import io
 import json
 import os
+import re
 import struct
 import sys
 
@@ -11,6 +12,7 @@ import mwrap
 
 with xd.quiet():
     import xdis.load as xload
+    from xdis.disasm import disassemble_file
     from xdis.load import load_module, load_module_from_file_object
 
 
@@ -36,7 +38,7 @@ def main():
                 data = bytes(bytearray(c["hdr"])) + payload + b"\x00" * 40      # load_module wants >= 50 bytes; marshal ignores the tail
                 path = os.path.join(tmp, "h%06d.pyc" % n)
             open(path, "wb").write(data)
-            for api in ("load_module", "load_module_from_file_object"):
+            for api in ("load_module", "load_module_from_file_object", "header_listing"):
                 ident = "%s:%d:%s" % (api, c["magic"], bytes(bytearray(c["hdr"])).hex())
                 try:
                     with xd.quiet():
@@ -45,8 +47,20 @@ def main():
                         try:
                             if api == "load_module":
                                 (version, ts, magic_int, co, pypy, ss, sip) = load_module(path)
-                            else:
+                            elif api == "load_module_from_file_object":
                                 (version, ts, magic_int, co, pypy, ss, sip) = load_module_from_file_object(io.BytesIO(data), filename=path)
+                            else:
+                                # what 'pydisasm -F header' prints: every field the file stores has its line, with the stored value
+                                buf = io.StringIO()
+                                disassemble_file(path, buf, asm_format="header")
+                                text = buf.getvalue()
+                                m = re.search(r"^# Timestamp in code: (\d+)", text, re.M)
+                                ts = int(m.group(1)) if m else None
+                                m = re.search(r"^# Source code size mod 2\*\*32: (\d+) bytes", text, re.M)
+                                ss = int(m.group(1)) if m else None
+                                m = re.search(r"^# SipHash:\s+0x([0-9a-f]+)", text, re.M)
+                                sip = int(m.group(1), 16) if m else None
+                                # version, magic and the code object are those of the load above (not printed in a form worth parsing)
                         finally:
                             xload.PYTHON_MAGIC_INT = saved
                     real_ok = real and co is not None and co.co_name in ("<module>", "?")
